@@ -243,6 +243,9 @@ def run(ctx):
     rej = ctx.validate("Trace_C04", "Trace_C04.cfg", [bad], xss="256m")
     if not rej.get(1):
         raise Machinery("self-test: corrupted event count was not rejected")
+    # growth module (DESIGN section 7 item 3): grid bookkeeping of the highest density contour
+    from . import ext_hdcgrid
+    ext_hdcgrid.run_ext(ctx, vc)
 
 
 def replay(ctx, case):
